@@ -74,7 +74,7 @@ def generate(rng, tier, shard, nshards):
                 # the object's public state methods called by hand between two queries (with a date of any epoch): the next dated query must not care
                 qs[-1]["pre"] = [str(rng.choice(["reset_date", "reset_coefficients", "load_coefficients"])), draw_date(rng, bool(rng.random() < 0.5))]
                 qs[-1]["kind"] = "explicit"
-        yield Case("history", "history", queries=qs, frame="NED" if i % 3 else "ENU")
+        yield Case("history", "history", queries=qs, frame=gens.spell("NED" if i % 3 else "ENU", i // 3))
     for i in range(gens.budget(90, tier, nshards)):
         reg = ["entry:on-grid", "entry:off-grid", "entry:datetime"][i % 3]
         lat, lon, h = place(rng)
@@ -106,7 +106,7 @@ def tol_for(lat):
 
 def expected_xyz(lat, lon, h, date_dec, frame):
     ref, _ = refwmm.field(lat, lon, h, date_dec, cof_root())
-    return ref if frame == "NED" else np.array([ref[1], ref[0], -ref[2]])
+    return ref if frame.upper() == "NED" else np.array([ref[1], ref[0], -ref[2]])
 
 
 def judge_elements(ctx, el, lat, lon, route="elements"):
@@ -132,7 +132,7 @@ def judge_elements(ctx, el, lat, lon, route="elements"):
 def check_history(case, ctx):
     from ahrs.utils.wmm import WMM
     qs, frame = case.p["queries"], case.p["frame"]
-    route = "history/" + frame
+    route = "history/" + frame.upper()
     w = None
     cur_date = None
     log = []
